@@ -397,6 +397,10 @@ def negotiated(maj, minor):
     return min(best, (3, 8))
 
 
+# security types this client does not implement: registered ones (RA2, Tight, VeNCrypt, ...) and numbers nobody has registered
+OTHER_SECTYPES = [5, 16, 19, 22, 113, 25, 77, 100, 127, 150, 200, 255]
+
+
 def gen_handshake(rng, s: Session, variant, password, *, want_success=None, native=None, version=None,
                   size=None):
     """Appends a handshake. Fills s.expect: version, sectype, outcome in
@@ -440,7 +444,7 @@ def gen_handshake(rng, s: Session, variant, password, *, want_success=None, nati
         if succeed:
             pool = [1, 2, 30] if (password is not None or variant == 2) else [1]
             sec = rng.choice(pool)
-            types = [sec] + [t for t in rng.sample([5, 16, 19, 22, 113, 0], rng.randrange(0, 3))]
+            types = [sec] + [t for t in rng.sample(OTHER_SECTYPES + [0], rng.randrange(0, 3))]
             # keep sec the maximum supported one
             types = [t for t in types if t not in (1, 2, 30) or t == sec]
             rng.shuffle(types)
@@ -449,9 +453,9 @@ def gen_handshake(rng, s: Session, variant, password, *, want_success=None, nati
             if k < 0.3:
                 types = []
             elif k < 0.5:
-                types = rng.sample([5, 16, 19, 22, 113], rng.randrange(1, 4))
+                types = rng.sample(OTHER_SECTYPES, rng.randrange(1, 4))
             else:
-                types = rng.sample([1, 2, 30, 5, 16], rng.randrange(1, 4))
+                types = rng.sample([1, 2, 30, 5, 16, 77, 200], rng.randrange(1, 4))
         s.add(bytes([len(types)]))
         if not types:
             reason = b"r" * rng.choice([0, 1, 5, 255, 1000])
